@@ -46,7 +46,7 @@ REQUIRED_REACH = ["append_order_checked", "segment_checked", "terminal_end_check
 ASSUMPTIONS = [
     "publication order of overlapping append calls is undefined; only non-overlapping calls and per-appender order are demanded",
     "cursor k at or beyond the first terminal event: only safety (in-order events above k) is demanded, not termination",
-    "bounded liveness: an event appended >= 5 poll intervals (+1 s) before the end of the script must have been delivered",
+    "bounded liveness: an event appended >= 5 poll intervals (+0.5 s) before the end of the script must have been delivered",
 ]
 VCLOCK = True
 SHARD_TIMEOUT = {"quick": 300, "thorough": 1800}
@@ -72,7 +72,7 @@ DELAYS = [0, 0, "y", "y", 0.05, 0.1, 0.1, 0.2, 0.35]
 
 def plan(tier, seed):
     if tier == "quick":
-        n, per, api = 16, 110, 10
+        n, per, api = 16, 90, 10
     else:
         n, per, api = 64, 900, 60
     return [{"seed": seed * 1000 + i, "n": per, "api": api, "tier": tier} for i in range(n)]
@@ -140,9 +140,18 @@ def make_stores(backend: str, poll: float, tmp: str):
             os.unlink(path + suffix)
         except FileNotFoundError:
             pass
+    import sqlite3
+
+    def keeper():
+        # harness-side idle connection: keeps the WAL alive so that the store's per-operation
+        # connect/close is not a "last connection closes -> checkpoint + unlink" every time (pure speed-up)
+        k = sqlite3.connect(path, timeout=30.0)
+        k.execute("SELECT count(*) FROM sqlite_master").fetchall()  # really attach to the db + wal
+        return k.close
+
     if backend == "sqlite":
         s = SqliteWorkflowStore(path, poll_interval=poll)
-        return s, s, lambda: None
+        return s, s, keeper()
     if backend == "sqlite_single":
         s = SqliteWorkflowStore(path, poll_interval=poll, single_connection=True)
 
@@ -156,7 +165,7 @@ def make_stores(backend: str, poll: float, tmp: str):
     if backend == "sqlite_two":
         a = SqliteWorkflowStore(path, poll_interval=poll)
         b = SqliteWorkflowStore(path, poll_interval=poll)
-        return a, b, lambda: None
+        return a, b, keeper()
     raise AssertionError(backend)
 
 
@@ -272,7 +281,7 @@ def run_script(case: dict, backend: str, tmp: str) -> dict:
             await asyncio.gather(*apps)
             obs["t_last_append"] = vclock.vnow()
             # settle: every subscriber gets >= 5 poll intervals + the longest plan of pauses
-            slack = 5 * case["poll"] + 1.0
+            slack = 5 * case["poll"] + 0.5
             longest = 0.0
             for s in case["subs"]:
                 tot = s["start"] if isinstance(s["start"], (int, float)) else 0
